@@ -272,6 +272,17 @@ def reuse_across_frames(ctx, b, d):
                        "opts": dict(o, level=0, conc=1, handler=False), "calls": [{"op": "write", "n": n}, {"op": "close"}],
                        "save": os.path.join(d, "reuse-%d.lz4" % (i + 1))})
     fl.shard_run(b, "frame-write", frames, d, "reusew")
+    # two hand-made frames with dependent blocks: a valid one (40 literal bytes), and an INVALID one whose first match
+    # reaches 9 bytes before the start of the stream - a new Reader rejects it; a reused one must too (D27: the history
+    # window of the previous stream survived Reset and the match was resolved against it)
+    from checks.readfuzz import xxh32, le32, FRAME_MAGIC
+    hdr = FRAME_MAGIC + [0x40, 0x40, (xxh32([0x40, 0x40]) >> 8) & 255]
+    lit = [0xF0, 25] + [97 + k % 8 for k in range(40)]
+    badblk = [0x14, 120, 10, 0, 0x50] + [ord(ch) for ch in "tail!"]
+    for name, body, valid in (("linked-valid", le32(len(lit)) + lit, True), ("linked-match-before-start", le32(len(badblk)) + badblk, False)):
+        path = os.path.join(d, "reuse-%s.lz4" % name)
+        open(path, "wb").write(bytes(hdr + body + [0, 0, 0, 0]))
+        frames.append({"id": len(frames) + 1, "name": name, "save": path, "valid": valid, "bytes": hdr + body + [0, 0, 0, 0]})
     cases = []
     for g in frames:
         for conc in (1, 4):
@@ -294,6 +305,7 @@ def reuse_across_frames(ctx, b, d):
     ctx.evaluations += len(cases)
     ctx.distinct += len(cases)
     by_id = {c["id"]: c for c in cases}
+    valid_of = {f["name"]: f.get("valid", True) for f in frames}
 
     def res(r, conc):
         return {k: r.get(k) for k in RESULT_KEYS if not (k == "consumed" and conc != 1)}
@@ -304,7 +316,7 @@ def reuse_across_frames(ctx, b, d):
         if c["id"] not in recs or ref["id"] not in recs:
             continue
         conc = c["cfg"]["conc"]
-        if recs[ref["id"]]["outcome"] != "clean":
+        if recs[ref["id"]]["outcome"] != "clean" and valid_of[c["g"]]:
             raise vlib.MachineryFault("a new Reader does not read the valid frame %s" % c["g"])
         if res(recs[c["id"]], conc) == res(recs[ref["id"]], conc):
             continue
@@ -361,7 +373,10 @@ def replay(ctx, path):
     b = vlib.build_harness()
     d = vlib.scratch("c17r")
     if rp["kind"] == "c17-reuse-frames":
-        fl.shard_run(b, "frame-write", [dict(f, save=os.path.join(d, os.path.basename(f["save"]))) for f in rp["frames"]], d, "reusew")
+        fl.shard_run(b, "frame-write", [dict(f, save=os.path.join(d, os.path.basename(f["save"]))) for f in rp["frames"] if "bytes" not in f], d, "reusew")
+        for f in rp["frames"]:
+            if "bytes" in f:
+                open(os.path.join(d, os.path.basename(f["save"])), "wb").write(bytes(f["bytes"]))
         fix = lambda c: json.loads(json.dumps(c).replace(os.path.dirname(rp["frames"][0]["save"]), d))
         c, ref = fix(rp["case"]), fix(rp["fresh"])
         conc = c["cfg"]["conc"]
